@@ -66,6 +66,79 @@ theorem complete_tripped (c : Cfg) (b : Brk) (now code : Nat) (orc : Oracle) (h 
   | false => rfl
   | true => exact absurd h ((complete_true_iff c b now code orc).mp h').2.1
 
+/-! ### one `check` (`checkAndSet` on whatever has been recorded) -/
+
+theorem check_true_iff (c : Cfg) (b : Brk) (now : Nat) (orc : Oracle) :
+    (checkAndSet c b now orc).2 = true ↔
+      (now > b.lastCheck ∧ b.state ≠ .tripped ∧
+        (eval (reader now orc) c.cond b.met).2 = true) := by
+  unfold checkAndSet
+  by_cases h1 : now > b.lastCheck <;> by_cases h2 : b.state = .tripped <;>
+    cases h3 : (eval (reader now orc) c.cond b.met).2 <;> simp [h1, h2, h3]
+
+theorem check_true (c : Cfg) (b : Brk) (now : Nat) (orc : Oracle)
+    (h : (checkAndSet c b now orc).2 = true) :
+    (checkAndSet c b now orc).1 =
+      { b with lastCheck := now + c.checkPeriod, state := .tripped, until_ := now + c.fallbackDur,
+               tripped := b.tripped + 1,
+               met := (eval (reader now orc) c.cond b.met).1.reset } := by
+  obtain ⟨h1, h2, h3⟩ := (check_true_iff c b now orc).mp h
+  unfold checkAndSet
+  simp [h1, h2, h3]
+
+theorem check_true_fields (c : Cfg) (b : Brk) (now : Nat) (orc : Oracle)
+    (h : (checkAndSet c b now orc).2 = true) :
+    (checkAndSet c b now orc).1.state = .tripped ∧
+    (checkAndSet c b now orc).1.until_ = now + c.fallbackDur ∧
+    (checkAndSet c b now orc).1.tripped = b.tripped + 1 ∧
+    (checkAndSet c b now orc).1.standbys = b.standbys ∧
+    (checkAndSet c b now orc).1.lastCheck = now + c.checkPeriod ∧
+    (checkAndSet c b now orc).1.met = (eval (reader now orc) c.cond b.met).1.reset := by
+  rw [check_true c b now orc h]
+  exact ⟨rfl, rfl, rfl, rfl, rfl, rfl⟩
+
+theorem check_false (c : Cfg) (b : Brk) (now : Nat) (orc : Oracle)
+    (h : (checkAndSet c b now orc).2 = false) :
+    (checkAndSet c b now orc).1.state = b.state ∧ (checkAndSet c b now orc).1.until_ = b.until_ ∧
+    (checkAndSet c b now orc).1.rc = b.rc ∧ (checkAndSet c b now orc).1.tripped = b.tripped ∧
+    (checkAndSet c b now orc).1.standbys = b.standbys := by
+  revert h
+  unfold checkAndSet
+  by_cases h1 : now > b.lastCheck <;> by_cases h2 : b.state = .tripped <;>
+    cases h3 : (eval (reader now orc) c.cond b.met).2 <;> simp [h1, h2, h3]
+
+/-- the evaluation schedule: a check after `lastCheck` moves it to `now + checkPeriod`, any other
+    changes nothing -/
+theorem check_lastCheck (c : Cfg) (b : Brk) (now : Nat) (orc : Oracle) :
+    (now > b.lastCheck → (checkAndSet c b now orc).1.lastCheck = now + c.checkPeriod) ∧
+    (¬ now > b.lastCheck → checkAndSet c b now orc = (b, false)) := by
+  constructor
+  · unfold checkAndSet
+    by_cases h1 : now > b.lastCheck <;> by_cases h2 : b.state = .tripped <;>
+      cases h3 : (eval (reader now orc) c.cond b.met).2 <;> simp [h1, h2, h3]
+  · intro h1
+    unfold checkAndSet
+    rw [if_neg h1]
+
+theorem check_lastCheck_ge (c : Cfg) (b : Brk) (now : Nat) (orc : Oracle) :
+    b.lastCheck ≤ (checkAndSet c b now orc).1.lastCheck := by
+  unfold checkAndSet
+  by_cases h1 : now > b.lastCheck <;> by_cases h2 : b.state = .tripped <;>
+    cases h3 : (eval (reader now orc) c.cond b.met).2 <;> simp [h1, h2, h3] <;> omega
+
+theorem check_tripped (c : Cfg) (b : Brk) (now : Nat) (orc : Oracle) (h : b.state = .tripped) :
+    (checkAndSet c b now orc).2 = false := by
+  cases h' : (checkAndSet c b now orc).2 with
+  | false => rfl
+  | true => exact absurd h ((check_true_iff c b now orc).mp h').2.1
+
+theorem record_fields (b : Brk) (now code : Nat) :
+    (record b now code).state = b.state ∧ (record b now code).until_ = b.until_ ∧
+    (record b now code).rc = b.rc ∧ (record b now code).tripped = b.tripped ∧
+    (record b now code).standbys = b.standbys ∧ (record b now code).lastCheck = b.lastCheck := by
+  unfold record
+  exact ⟨rfl, rfl, rfl, rfl, rfl, rfl⟩
+
 /-! ### one `arrive` -/
 
 theorem arrive_standby (c : Cfg) (b : Brk) (now : Nat) (h : b.state = .standby) :
@@ -119,6 +192,8 @@ theorem states_append (c : Cfg) : ∀ (xs ys : List Ev) (b : Brk),
 /-- what a shielded trace shows: every arrival is answered by the fallback, no completion trips -/
 def shieldObs : Ev → Obs
   | .arrive _ => .fallback
+  | .record _ _ => .recorded
+  | .check _ _ => .done false
   | .complete _ _ _ => .done false
 
 /-- from a tripped breaker every event strictly before `until` leaves it tripped with the same deadline
@@ -142,6 +217,21 @@ theorem shield (c : Cfg) : ∀ (es : List Ev) (b : Brk), b.state = .tripped →
       simp only [run_cons, hstep]
       obtain ⟨i1, i2, i3, i4, i5⟩ := ih b hs hrest
       exact ⟨i1, i2, i3, i4, by simp [i5, shieldObs]⟩
+    | record t code =>
+      have hstep2 : (step c b (.record t code)).2 = .recorded := rfl
+      have hstep1 : (step c b (.record t code)).1 = record b t code := rfl
+      simp only [run_cons, hstep2, hstep1]
+      obtain ⟨f1, f2, _, f4, f5, _⟩ := record_fields b t code
+      obtain ⟨i1, i2, i3, i4, i5⟩ := ih (record b t code) (f1.trans hs) (by rw [f2]; exact hrest)
+      exact ⟨i1, i2.trans f2, i3.trans f4, i4.trans f5, by simp [i5, shieldObs]⟩
+    | check t orc =>
+      have hf := check_tripped c b t orc hs
+      obtain ⟨s1, s2, _, s3, s4⟩ := check_false c b t orc hf
+      have hstep2 : (step c b (.check t orc)).2 = .done false := by simp [step, hf]
+      have hstep1 : (step c b (.check t orc)).1 = (checkAndSet c b t orc).1 := rfl
+      simp only [run_cons, hstep2, hstep1]
+      obtain ⟨i1, i2, i3, i4, i5⟩ := ih _ (s1.trans hs) (by rw [s2]; exact hrest)
+      exact ⟨i1, by rw [i2, s2], by rw [i3, s3], by rw [i4, s4], by simp [i5, shieldObs]⟩
     | complete t code orc =>
       have hf := complete_tripped c b t code orc hs
       obtain ⟨s1, s2, _, s3, s4⟩ := complete_false c b t code orc hf
@@ -177,6 +267,19 @@ theorem step_edge (c : Cfg) (b : Brk) (e : Ev) : Edge b (step c b e).1 := by
       by_cases h1 : t > b.until_
       · rw [arrive_recovering_after c b t hs h1]; exact Edge.standby hs rfl rfl rfl
       · rw [arrive_recovering_within c b t hs (by omega)]; exact Edge.same rfl rfl rfl
+  | record t code =>
+    obtain ⟨f1, _, _, f4, f5, _⟩ := record_fields b t code
+    exact Edge.same f1.symm f4 f5
+  | check t orc =>
+    show Edge b (checkAndSet c b t orc).1
+    cases hf : (checkAndSet c b t orc).2 with
+    | false =>
+      obtain ⟨s1, _, _, s3, s4⟩ := check_false c b t orc hf
+      exact Edge.same s1.symm s3 s4
+    | true =>
+      have h2 := ((check_true_iff c b t orc).mp hf).2.1
+      rw [check_true c b t orc hf]
+      exact Edge.trip h2 rfl rfl rfl
   | complete t code orc =>
     show Edge b (complete c b t code orc).1
     cases hf : (complete c b t code orc).2 with
@@ -296,6 +399,22 @@ theorem tripped_count (c : Cfg) : ∀ (es : List Ev) (b : Brk),
         show (match (arrive c b t).1 with | .pass => Obs.pass | .fallback => Obs.fallback) ≠ _
         cases (arrive c b t).1 <;> simp
       rw [h1, List.count_cons_of_ne h2]
+    | record t code =>
+      have h1 : (step c b (.record t code)).1.tripped = b.tripped := (record_fields b t code).2.2.2.1
+      have h2 : (step c b (.record t code)).2 = .recorded := rfl
+      rw [h1, h2, List.count_cons_of_ne (by simp)]
+    | check t orc =>
+      cases hf : (checkAndSet c b t orc).2 with
+      | false =>
+        have h1 : (step c b (.check t orc)).1.tripped = b.tripped := (check_false c b t orc hf).2.2.2.1
+        have h2 : (step c b (.check t orc)).2 = .done false := by
+          show Obs.done (checkAndSet c b t orc).2 = _; rw [hf]
+        rw [h1, h2, List.count_cons_of_ne (by simp)]
+      | true =>
+        have h1 : (step c b (.check t orc)).1.tripped = b.tripped + 1 := (check_true_fields c b t orc hf).2.2.1
+        have h2 : (step c b (.check t orc)).2 = .done true := by
+          show Obs.done (checkAndSet c b t orc).2 = _; rw [hf]
+        rw [h1, h2, List.count_cons_self]; omega
     | complete t code orc =>
       cases hf : (complete c b t code orc).2 with
       | false =>
@@ -310,5 +429,54 @@ theorem tripped_count (c : Cfg) : ∀ (es : List Ev) (b : Brk),
         have h2 : (step c b (.complete t code orc)).2 = .done true := by
           show Obs.done (complete c b t code orc).2 = _; rw [hf]
         rw [h1, h2, List.count_cons_self]; omega
+
+end CB
+
+namespace CB
+open CBExpr
+
+/-- an event that shows `done true` is a check (alone or fused with its record) that tripped the breaker:
+    the state is `tripped`, the deadline is its time plus the fallback duration, one more on-tripped effect
+    was launched, and the metrics were reset -/
+theorem step_done_true (c : Cfg) (b : Brk) (e : Ev) (h : (step c b e).2 = .done true) :
+    (step c b e).1.state = .tripped ∧ (step c b e).1.until_ = e.time + c.fallbackDur ∧
+    (step c b e).1.tripped = b.tripped + 1 ∧ (step c b e).1.standbys = b.standbys ∧
+    (step c b e).1.lastCheck = e.time + c.checkPeriod ∧ b.state ≠ .tripped ∧ e.time > b.lastCheck ∧
+    ∃ m' : Metrics, (step c b e).1.met = m'.reset := by
+  cases e with
+  | arrive t =>
+    exfalso
+    have : (match (arrive c b t).1 with | .pass => Obs.pass | .fallback => Obs.fallback) = .done true := h
+    cases h2 : (arrive c b t).1 <;> rw [h2] at this <;> cases this
+  | record t code => cases h
+  | check t orc =>
+    have hf : (checkAndSet c b t orc).2 = true := by
+      have : Obs.done (checkAndSet c b t orc).2 = .done true := h
+      injection this
+    obtain ⟨f1, f2, f3, f4, f5, f6⟩ := check_true_fields c b t orc hf
+    obtain ⟨g1, g2, _⟩ := (check_true_iff c b t orc).mp hf
+    exact ⟨f1, f2, f3, f4, f5, g2, g1, _, f6⟩
+  | complete t code orc =>
+    have hf : (complete c b t code orc).2 = true := by
+      have : Obs.done (complete c b t code orc).2 = .done true := h
+      injection this
+    obtain ⟨f1, f2, f3, f4, f5, f6⟩ := complete_true_fields c b t code orc hf
+    obtain ⟨g1, g2, _⟩ := (complete_true_iff c b t code orc).mp hf
+    exact ⟨f1, f2, f3, f4, f5, g2, g1, _, f6⟩
+
+/-- an event that does not show `done true` leaves the state alone unless it is an arrival -/
+theorem step_not_trip (c : Cfg) (b : Brk) (e : Ev) (h : (step c b e).2 ≠ .done true) (hne : ∀ t, e ≠ .arrive t) :
+    (step c b e).1.state = b.state := by
+  cases e with
+  | arrive t => exact absurd rfl (hne t)
+  | record t code => exact (record_fields b t code).1
+  | check t orc =>
+    cases hf : (checkAndSet c b t orc).2 with
+    | false => exact (check_false c b t orc hf).1
+    | true => exact absurd (by show Obs.done (checkAndSet c b t orc).2 = _; rw [hf]) h
+  | complete t code orc =>
+    cases hf : (complete c b t code orc).2 with
+    | false => exact (complete_false c b t code orc hf).1
+    | true => exact absurd (by show Obs.done (complete c b t code orc).2 = _; rw [hf]) h
 
 end CB
